@@ -9,6 +9,9 @@ W=${MUTBASE:-/tmp/mut}/$P
 ROOT=$(cd "$(dirname "$0")/.." && pwd)
 export CARGO_TARGET_DIR=$W/target
 cd $W || exit 2
+if [ -f $W/out/intake_confirm.txt ]; then
+  . $W/out/intake_confirm.txt
+else
 git checkout -q -- . ; git clean -fdq -- netconf junos-agent lib cli 2>/dev/null
 git apply out/demo.diff || { echo "demo.diff does not apply"; exit 2; }
 sh -c "$DEMO" > $W/out/intake_demo_without.txt 2>&1; RC_WITHOUT=$?
@@ -19,6 +22,10 @@ git apply out/patch.diff
 cargo test --workspace --no-fail-fast --offline > $W/out/intake_suite.txt 2>&1; RC_SUITE=$?
 PASSED=$(grep -E "^test result" $W/out/intake_suite.txt | awk '{p+=$4; f+=$6} END {print p "/" f}')
 git checkout -q -- . ; git clean -fdq -- netconf junos-agent lib cli 2>/dev/null
+rm -rf $W/target
+printf 'RC_WITHOUT=%s\nRC_WITH=%s\nRC_SUITE=%s\nPASSED=%s\n' "$RC_WITHOUT" "$RC_WITH" "$RC_SUITE" "$PASSED" > $W/out/intake_confirm.txt
+fi
+[ -n "$CONFIRM_ONLY" ] && { echo "$P: demo without change rc=$RC_WITHOUT (want 0); with change rc=$RC_WITH (want !=0); suite rc=$RC_SUITE $PASSED"; exit 0; }
 echo "demo without change rc=$RC_WITHOUT (want 0); with change rc=$RC_WITH (want !=0); suite with change rc=$RC_SUITE passed/failed=$PASSED"
 cd $ROOT; unset CARGO_TARGET_DIR
 RES=$(tools/try_patch.sh $W/out/patch.diff $CHECKS 2>&1)
